@@ -16,14 +16,20 @@ def find_references_lemmas(o, L, S, E, ML, f_fr, structural, on_sat):
     """One iteration of find_references: what is recorded, when, and over which modules."""
     # find_references: one variable of one module
     ex = mirlib.executor([ML])
-    n_push = n_skip = 0
+    n_push = n_skip = n_nocmp = 0
     for p in ex.run(f_fr, arg_names=["workspace", "folder", "definition"]):
         if p.kind != "backedge":
             continue
         cd = [e for e in p.calls() if e[1] == "Core::definition"]
-        if not cd:
-            continue
         nx = [e for e in p.calls() if e[1].endswith("Iterator::next")]
+        if not cd:
+            # an iteration of the variable loop (its iterator just yielded a variable) must compare that
+            # variable's definition slot with the requested definition; it may not skip it on other grounds
+            if nx:
+                v, _ = S.check("find_references: path visits a variable", S.pc(p.pc) + [S.disc(S.v(nx[-1][3])) == 1])
+                if v == "sat":
+                    n_nocmp += 1
+            continue
         var = ms.proj(ms.proj(nx[-1][3], ("v", "Some"), E), ("f", 0), E)
         slot = ex.raw_deref(p.state, ms.proj(ms.proj(cd[0][3], ("v", "Some"), E), ("f", 0), E))
         same = S.v(ex.raw_deref(p.state, ("sym", "definition"))) == S.v(slot)
@@ -40,6 +46,7 @@ def find_references_lemmas(o, L, S, E, ML, f_fr, structural, on_sat):
         else:
             n_skip += 1
             L.expect_unsat("find_references: a variable is skipped only if its definition slot differs", cond + [same], on_sat)
+    structural("find_references: every variable of a module is compared with the requested definition (none is skipped on other grounds)", n_nocmp == 0)
     if n_push < 1 or n_skip < 1:
         o.inconc("find_references loop body: expected a recording and a skipping path (%d/%d)" % (n_push, n_skip))
     mirlib.check_translator(o, ex, "find_references")
